@@ -321,15 +321,15 @@ def gen_set(rng, tier):
 
 def gen_known(rng):
     """inputs on which the pinned library violates the property (reported; enabled with VERIF_C13_KNOWN=1)"""
-    # mpf_ui_sub: u equal to v's only non-zero limb, v with low zero limbs (e.g. v = mpf_set_d(5.0)): zero with exponent -1
-    yield from both("mpf_ui_sub 2 0 2 2 1 [0,5] 5")
+    # mpf_ui_sub: 2 - (2 - B^-3) at 2-limb... precision 3: the result is B^-2 instead of B^-3
+    yield from both("mpf_ui_sub 3 0 4 4 1 [ffffffffffffffff,ffffffffffffffff,ffffffffffffffff,1] 2")
 
 def is_known(line):
     """mpf_ui_sub (r, u, v) where the integer limb cancels (|u - v| < 1, v with exponent 1): ui_sub.c truncates v to
        PREC(r) limbs BEFORE the cancellation (no prec+1, no x+1|000 / x|fff scan as in sub.c), so the error bound fails
-       (by a few bits up to whole limbs), and when u == v and v carries low zero limbs the zero result gets a negative
-       exponent.  Reported findings; the predicate form of this family is emitted only with VERIF_C13_KNOWN=1 (the
-       exact form always runs)."""
+       (by a few bits up to whole limbs).  Reported finding; the predicate form of this family is emitted only with
+       VERIF_C13_KNOWN=1 (the exact form always runs).  (The zero-with-negative-exponent case of the same code was
+       fixed in /repo by 9e4173d.)"""
     t = line.split(" ")
     if t[0] != "mpf_ui_sub?": return False
     size, exp, limbs, w = t[4], int(t[5].replace("-", "-0x") if t[5].startswith("-") else "0x" + t[5], 16), t[6][1:-1], int(t[7], 16)
